@@ -219,10 +219,18 @@ class Type4Tag(nfc.tag.Tag):
                 log.debug("failed to select %s", hexlify(fid).decode())
 
         def _read_binary(self, offset, size):
+            if offset > 0x7FFF:
+                # not addressable with the 15 bit offset of READ BINARY
+                log.debug("read_binary offset %d out of range", offset)
+                raise Type4TagCommandError(nfc.tag.PROTOCOL_ERROR)
             (p1, p2) = pack(">H", offset)
             max_data = min(self._max_le, size)
             log.debug("read_binary from %d to %d", offset, offset + max_data)
-            return self.tag.send_apdu(0, 0xB0, p1, p2, mrl=max_data)
+            data = self.tag.send_apdu(0, 0xB0, p1, p2, mrl=max_data)
+            if len(data) > max_data:
+                log.debug("read_binary returned more data than requested")
+                raise Type4TagCommandError(nfc.tag.PROTOCOL_ERROR)
+            return data
 
         def _update_binary(self, offset, data):
             (p1, p2) = pack(">H", offset)
